@@ -161,6 +161,21 @@ Definition py_decode (v : pyval) : res pyval :=
 Definition py_rstrip0 (v : pyval) : pyval := match v with PText b => PText (rstrip0 b) | x => x end.
 Definition py_zero_bytes (n : pyval) : pyval := match n with PInt z => PBytes (zeros (Z.to_nat z)) | _ => PNone end.
 
+(* frame.f.<name> = v on a frame whose fields are held by name (convenience setters): Fields.__setattr__ sets the value of an
+   existing field; frame.f.<name> reads it; `int(a / b)` truncates towards zero; a datetime argument is an object with
+   year .. second attributes *)
+Fixpoint attr_set_existing (l : list (string * pyval)) (name : string) (v : pyval) : list (string * pyval) :=
+  match l with
+  | [] => []
+  | (k, x) :: t => if String.eqb k name then (k, v) :: t else (k, x) :: attr_set_existing t name v
+  end.
+Definition py_fld_set (f : pyval) (name : string) (v : pyval) : pyval :=
+  match f with PObj l => PObj (attr_set_existing l name v) | x => x end.
+Definition py_trunc_div (a b : pyval) : pyval := match a, b with PInt x, PInt y => PInt (Z.quot x y) | _, _ => PNone end.
+Definition py_neg (a : pyval) : pyval := match a with PInt x => PInt (- x) | _ => PNone end.
+Definition py_or (a b : pyval) : pyval := match a, b with PInt x, PInt y => PInt (Z.lor x y) | _, _ => PNone end.
+Definition py_invert (a : pyval) : pyval := match a with PInt x => PInt (Z.lnot x) | _ => PNone end.
+
 (* Fields objects and freshly constructed items (VALGET response) *)
 Definition py_new_fields : pyval := PObj [("items"%string, PList [])].
 Definition py_fields_add (f x : pyval) : pyval :=
